@@ -56,13 +56,40 @@ def tag_loop_template(loop, rec, tags_attr, var=None, handle=None):
     return ("rep", tmpl._merge(parts), loop)
 
 
+class _Alias(ast.NodeTransformer):
+    def __init__(self, names, target):
+        self.names, self.target = names, target
+
+    def visit_Name(self, node):
+        if isinstance(node.ctx, ast.Load) and node.id in self.names:
+            return ast.copy_location(ast.parse(self.target, mode="eval").body, node)
+        return node
+
+
 def fold(path, rec, tags_attr, var=None, handle=None, sink_call=None):
     """Fold one path.  Returns the parts emitted on this path (None if nothing)."""
+    import copy
+
     b = tmpl.Builder(track_vars=[var] if var else [], handles={handle} if handle else set())
     emitted = None
+    base = f"{rec}.{tags_attr}"
+    aliases = set()  # local names bound to the record's tag mapping on this path (`optional = self.tags`)
+
+    def dealias(node):
+        if not aliases or not any(isinstance(x, ast.Name) and x.id in aliases for x in ast.walk(node)):
+            return node
+        new = _Alias(set(aliases), base).visit(copy.deepcopy(node))
+        ast.fix_missing_locations(new)
+        return new
+
     for e in path.events:
+        if e.kind == "stmt" and isinstance(e.node, ast.Assign) and len(e.node.targets) == 1 and isinstance(e.node.targets[0], ast.Name):
+            if norm(e.node.value) == base:
+                aliases.add(e.node.targets[0].id)
+                continue
+            aliases.discard(e.node.targets[0].id)
         if e.kind == "loop":
-            r = tag_loop_template(e.node, rec, tags_attr, var, handle)
+            r = tag_loop_template(dealias(e.node), rec, tags_attr, var, handle)
             if r is not None:
                 if var and b.env.get(var) is not None:
                     b.env[var] = b.env[var] + [r]
@@ -84,9 +111,15 @@ def fold(path, rec, tags_attr, var=None, handle=None, sink_call=None):
             if x is not None:
                 emitted = tmpl._merge(tmpl.of_expr(x, b._env()))
                 continue
-        b.feed(e)
+        if aliases and isinstance(st, ast.Expr):
+            st = dealias(st)
+            b.stmt(st)
+        else:
+            b.feed(e)
         if var and isinstance(st, ast.Return) and st.value is not None and norm(st.value) == var:
             emitted = b.env.get(var)
+        elif var and isinstance(st, ast.Return) and st.value is not None and b.env.get(var) and b.env[var][0][0] == "listvar" and var in {x.id for x in ast.walk(st.value) if isinstance(x, ast.Name)}:
+            emitted = tmpl._merge(tmpl.of_expr(st.value, b._env()))
         if var and isinstance(st, ast.Expr) and isinstance(st.value, (ast.Yield,)) and st.value.value is not None and norm(st.value.value) == var:
             emitted = b.env.get(var)
     if handle:
@@ -106,15 +139,22 @@ def find_emitters(ctx, rule):
     repo = ctx.repo
     schema, extras = gaf_schema(repo, rule)
     tags_attr = extras["tags_attr"]
-    from ..core import tail_inlined
+    from ..core import inlined, tail_inlined, with_str_consts
 
     out = []
     for f0 in repo.all_funcs():
         recs0 = record_params(f0, schema) | ({"self"} if f0.cls == extras["class"] else set())
         if not recs0:
             continue
+        body0 = [st for st in f0.node.body if not (isinstance(st, ast.Expr) and isinstance(st.value, ast.Constant))]
+        if len(body0) == 1 and isinstance(body0[0], ast.Return) and repo.callers_of(f0):
+            continue  # a single-return helper: analysed inlined into its callers
         # a function that hands its line to a same-module helper in tail position is analysed with the helper inlined
         f = tail_inlined(repo, f0) if any(isinstance(st, ast.Return) and isinstance(st.value, ast.Call) and repo.resolve_call(f0, st.value) is not None and repo.resolve_call(f0, st.value).module is f0.module for st in f0.node.body) else f0
+        # single-return helpers that build the mandatory columns, and module-level format constants
+        if any(isinstance(c, ast.Call) and (h := repo.resolve_call(f, c)) is not None and h.module is f.module and h is not f0 and any(isinstance(x, ast.Attribute) and x.attr in schema for x in ast.walk(h.node)) for c in walk_own(f.node)):
+            f = inlined(repo, f)
+        f = with_str_consts(f)
         recs = record_params(f, schema) | ({"self"} if f.cls == extras["class"] else set())
         # candidate 12-column templates
         for n in walk_own(f.node):
